@@ -3,11 +3,32 @@ package graph
 import (
 	"strings"
 
+	"github.com/vektah/gqlparser/v2/ast"
+
 	"example.com/probe/ref"
 	"github.com/99designs/gqlgen/zzsym"
 )
 
-func Setup_C04_faults() { Setup_C01_exec() }
+func Setup_C04_faults() { Setup_C01_exec(); c04Arg = mustLoad(`{ me { id a: echo(o: "boom") b: echo(s: "x") best { id } } }`) }
+
+var c04Arg *ast.QueryDocument
+
+// Harness_C04_argPanic: a panic while a field's arguments are built (custom
+// scalar UnmarshalGQL, argument directive) fails exactly that field: null,
+// one error, the resolver is not called, the recover hook runs once per panic.
+func Harness_C04_argPanic() {
+	w := newWorld(zzsym.Param("budget", 1), true)
+	op := c04Arg.Operations[0]
+	got := runOp(w, c04Arg, op, nil)
+	want := ref.Execute(pSchema, c04Arg, op, nil, w)
+	zzsym.Assert(got.data == want.Data, "only the field whose arguments failed is null")
+	zzsym.Assert(sameStrings(got.errs, want.Errors), "exactly one error per failure")
+	zzsym.Assert(w.recovers == w.raised, "the recover hook runs exactly once per panic")
+	for _, c := range w.calls {
+		zzsym.Assert(c != "me/User.echo" || w.guards["guard3:me.b.echo.s"] == ref.KValue, "the resolver of a field whose argument failed is not called")
+	}
+	zzsym.Reach("c04.argpanic")
+}
 
 // Harness_C04_faults: every single (or, thorough, double) fault point of
 // user code - a resolver on the calling goroutine or a spawned one, in a
